@@ -25,7 +25,7 @@ MANDATORY = ["ungrouped_add_ancilla_inside_span", "child_edited_after_add", "rej
              "reject:oversize_add_trailing_ancilla", "reject:oversize_add_heralded_child", "reject:plus_size", "reject:noninteger_mode",
              "shared_instances_checked", "passed_to:Simulator", "passed_to:Sampler", "passed_to:QuickSampler",
              "passed_to:Analyzer", "passed_to:Reck", "passed_to:Display", "passed_to:tomography", "converter_run",
-             "reused_object_contains_plain_group", "parent_edited_after_copy", "frozen_copy_taken"]
+             "reused_object_contains_plain_group", "parent_edited_after_copy", "frozen_copy_taken", "returned_values_scribbled"]
 DECIDING = ["mon.arg_fingerprints_compared", "mon.reject_atomicity_checks", "parent_stability_comparisons",
             "shared_instance_comparisons"]
 BUDGET = {"quick": 30, "thorough": 480}
@@ -190,6 +190,23 @@ def reuse_history(ctx, lw, rng):
         hist.append(["edit_child"])
     except Exception:  # noqa: BLE001
         pass
+    # what the read-only API hands out must not be the circuit's own storage
+    for target in [x] + parents[:2]:
+        try:
+            fp_t = circmon.circuit_fingerprint(target, with_unitary=True)
+            h = target.heralds
+            h["input"][97] = 1
+            h["output"].clear()
+            ps_list = target.get_all_params()
+            ps_list.clear()
+            ps_list.append("junk")
+            prob = circmon.scribble_probe(target)
+            ctx.bucket("returned_values_scribbled")
+            if prob or circmon.circuit_fingerprint(target, with_unitary=True) != fp_t:
+                ctx.violation("overwriting values returned by heralds / get_all_params / U / U_full changed the circuit",
+                              case={"history": hist}, mechanism="returned_value_aliases_state", monitor="scribble probe")
+        except Exception as e:  # noqa: BLE001
+            ctx.count("scribble_raised:" + type(e).__name__)
     # frozen copies (a rarely used option): neither the parent nor the reused argument may move
     for target in [x] + parents[:2]:
         try:
